@@ -271,6 +271,9 @@ class Traversal:
                 return out
             return self._seq(self.paths(n["l"], env, depth), self.paths(n["r"], env, depth))
         if k in ("Assign", "AssignOp"):
+            if hir.is_cancel_write(n):
+                # the rewrite is refused here (in the reviewed tree: inside cancel_visit, which is read in line)
+                return [Path(effects=[{"kind": "cancel", "node": n, "ap": None, "vty": None, "depth": depth, "in_fn": self.fn.def_path}])]
             return self._seq(self.paths(n["r"], env, depth), self.paths(n["l"], env, depth))
         if k == "Index":
             return self._seq(self.paths(n["x"], env, depth), self.paths(n["i"], env, depth))
